@@ -323,8 +323,11 @@ class StmtMixin:
 
     def write(self, base_id: Node, idx: Node, value: Node, st: St, fr, site, aug=None):
         base = self.res(base_id, st)
-        if base.op == "Dict" and idx.op == "Const" and aug is None:
-            new = self.dict_set(base, idx.attr, value, site)
+        ik = self.const_key(idx)
+        if base.op == "Dict" and ik is not self.NOKEY and aug is None:
+            new = self.dict_set(base, ik, value, site)
+        elif base.op == "Phi" and ik is not self.NOKEY and aug is None and self._phi_of_dicts(base):
+            new = self._phi_map(base, lambda d: self.dict_set(d, ik, value, site), site)
         elif base.op == "List" and idx.op == "Const" and isinstance(idx.attr, int) and aug is None \
                 and -len(base.args) <= idx.attr < len(base.args):
             items = list(base.args)
@@ -409,6 +412,17 @@ class StmtMixin:
             old = self.mk("Subscript", (self.res(base_id, st), idx), None, site)
             self.write(base_id, idx, self.binop(opname, old, rhs, site), st, fr, site, aug=opname)
         return True
+
+    def _phi_of_dicts(self, n, depth=0):
+        if n.op == "Dict":
+            return True
+        return n.op == "Phi" and depth < 4 and self._phi_of_dicts(n.args[1], depth + 1) and \
+            self._phi_of_dicts(n.args[2], depth + 1)
+
+    def _phi_map(self, n, f, site):
+        if n.op == "Phi":
+            return self.phi(n.args[0], self._phi_map(n.args[1], f, site), self._phi_map(n.args[2], f, site), site)
+        return f(n)
 
     def _propagate_view_write(self, ident, new, st, site):
         child = ident
@@ -567,6 +581,29 @@ class StmtMixin:
                 fr.loops.pop()
             st.pc = tuple(x for x in st.pc if x[0] is not marker)
             return falls
+        if it.op == "Phi" and self._phi_known_items(it):
+            # the sequence was chosen by a branch: run the loop once per alternative and join the states
+            c = it.args[0]
+            base_pc = st.pc
+            s1, s2 = st.copy(), st.copy()
+            s1.pc = base_pc + ((c, True),)
+            s2.pc = base_pc + ((c, False),)
+            tmp = "$iter%d" % self.g.serial()
+            s1.locals[tmp], s2.locals[tmp] = it.args[1], it.args[2]
+            loop = ast.copy_location(ast.For(target=s.target, iter=ast.copy_location(ast.Name(id=tmp, ctx=ast.Load()),
+                                                                                   s.iter),
+                                             body=s.body, orelse=s.orelse, type_comment=None), s)
+            f1 = self.ex_For(loop, fr, s1)
+            f2 = self.ex_For(loop, fr, s2)
+            s1.locals.pop(tmp, None)
+            s2.locals.pop(tmp, None)
+            if f1 and f2:
+                st.assign_from(self.merge2(c, s1, s2, base_pc))
+                return True
+            if f1 or f2:
+                st.assign_from(s1 if f1 else s2)
+                return True
+            return False
         items = self.known_items(it)
         if items is not None:
             loop_entry = len(st.pc)
@@ -591,6 +628,12 @@ class StmtMixin:
                 alive = True
             return alive
         return self._opaque_loop(s, it, fr, st, site)
+
+    def _phi_known_items(self, it, depth=0):
+        if it.op == "Phi":
+            return depth < 4 and self._phi_known_items(it.args[1], depth + 1) and \
+                self._phi_known_items(it.args[2], depth + 1)
+        return self.known_items(it) is not None
 
     def _opaque_loop(self, s, it, fr, st, site):
         """Loop over an unknown number of items: the body is built once over placeholders
